@@ -187,6 +187,7 @@ fn main() {
             "corrupt" => search_corrupt(&mut rng, budget),
             "bias" => match msgs::bias_search(&mut rng, budget.min(20000)) { Ok(n) => n, Err((p, why)) => found("bias", &p, &[], &why, 0) },
             "text" => match text::search(&mut rng, budget.min(200000)) { Ok(n) => n, Err((p, why)) => found("text", &p, &[], &why, 0) },
+            "msminvalid" => match msgs::msm_invalid_search(&mut rng, budget.min(20000)) { Ok(n) => n, Err((p, why)) => found("msminvalid", &p, &[], &why, 0) },
             "msmperm" => match msgs::msm_perm_search(&mut rng, budget.min(20000)) { Ok(n) => n, Err((p, why)) => found("msmperm", &p, &[], &why, 0) },
             "builder" => match msgs::builder_search(&mut rng, budget.min(4000)) { Ok(n) => n, Err((p, why)) => found("builder", &p, &[], &why, 0) },
             "classify" => match msgs::classify_search(&mut rng) { Ok(n) => n, Err((p, why)) => found("classify", &p, &[], &why, 0) },
@@ -248,6 +249,7 @@ fn main() {
             "msgs" => msgs::check_payload(&inp),
             "bias" => { let mut rng = Rng(0x1234567); msgs::bias_search(&mut rng, 3000).err().map(|e| e.1) }
             "text" => { let mut rng = Rng(0x1234567); text::search(&mut rng, 20000).err().map(|e| e.1) }
+            "msminvalid" => { let mut rng = Rng(0x1234567); msgs::msm_invalid_search(&mut rng, 5000).err().map(|e| e.1) }
             "msmperm" => { let mut rng = Rng(0x1234567); msgs::msm_perm_search(&mut rng, 5000).err().map(|e| e.1) }
             "builder" => { let mut rng = Rng(0x1234567); msgs::builder_search(&mut rng, 2000).err().map(|e| e.1) }
             "classify" => { let mut rng = Rng(0x1234567); msgs::classify_search(&mut rng).err().map(|e| e.1) }
